@@ -256,7 +256,7 @@ Theorem run_op_actions o c :
   data (fst (run_op o c)) = apply_actions (op_actions o (metrics c)) (data c) /\
   metrics (fst (run_op o c)) = op_metrics o (metrics c).
 Proof.
-  destruct o as [fold kvs|desc alt fold kvs|desc fold kvs|sect desc kvs|sect desc params|key|ks|key|names|ks b|ks b];
+  destruct o as [fold kvs|desc alt fold kvs|desc fold kvs|sect desc kvs|sect desc params|key|ks|key|names|ks b|ks b|ks t];
     cbn [run_op op_actions op_metrics].
   - cbn [fst data metrics set_data]. split; [apply add_texts_actions|reflexivity].
   - pose proof (add_plots_actions desc alt fold kvs (data c)) as H.
@@ -291,6 +291,14 @@ Proof.
       * split; reflexivity.
       * split; [|reflexivity]. symmetry. apply update_missing. exact El.
     + destruct (chain_not_ok ks (data c) Eok) as [e He]. rewrite He. split; reflexivity.
+  - destruct (chain_ok ks) eqn:Eok.
+    + destruct (chain_ok_nonnil ks Eok) as [Hks Hp].
+      rewrite chain_select_spec by exact Hks. rewrite Eok.
+      cbn [apply_actions fold_left apply_action].
+      destruct (lookup (chain_path ks) (data c)) as [x|] eqn:El; cbn [fst data metrics set_data].
+      * split; reflexivity.
+      * split; [|reflexivity]. symmetry. apply update_missing. exact El.
+    + destruct (chain_not_ok ks (data c) Eok) as [e He]. rewrite He. split; reflexivity.
 Qed.
 
 Lemma run_card_cons o ops c : run_card (o :: ops) c = run_card ops (fst (run_op o c)).
@@ -308,12 +316,12 @@ Proof.
 Qed.
 
 (* ------------------------------------------------------------------ invariants *)
-Lemma upd_fun_subs vis fold x : subs (upd_fun vis fold x) = subs x.
-Proof. destruct x, vis, fold; reflexivity. Qed.
+Lemma upd_fun_subs vis fold ttl x : subs (upd_fun vis fold ttl x) = subs x.
+Proof. destruct x, vis, fold, ttl; reflexivity. Qed.
 
 Lemma wf_apply_action a d : action_ok a -> wf_dict d -> wf_dict (apply_action a d).
 Proof.
-  destruct a as [p new|p|p vis fold]; cbn [action_ok apply_action]; intros Hok Hd.
+  destruct a as [p new|p|p vis fold ttl]; cbn [action_ok apply_action]; intros Hok Hd.
   - destruct Hok as [_ Hs]. apply wf_add_path; [exact Hd|]. rewrite Hs. constructor.
   - destruct (delete_path p d) as [d'|] eqn:E; [eapply wf_delete_path; eauto | exact Hd].
   - apply wf_update_path; [apply upd_fun_subs | exact Hd].
@@ -327,7 +335,7 @@ Qed.
 
 Lemma op_actions_ok o m : Forall action_ok (op_actions o m).
 Proof.
-  destruct o as [fold kvs|desc alt fold kvs|desc fold kvs|sect desc kvs|sect desc params|key|ks|key|names|ks b|ks b];
+  destruct o as [fold kvs|desc alt fold kvs|desc fold kvs|sect desc kvs|sect desc params|key|ks|key|names|ks b|ks b|ks t];
     cbn [op_actions].
   - induction kvs as [|kv kvs IH]; cbn [map]; constructor; [|exact IH].
     split; [apply split_names_nonnil | reflexivity].
@@ -344,6 +352,7 @@ Proof.
     destruct (is_empty _); constructor; [|constructor]. discriminate.
   - destruct (chain_ok ks) eqn:E; constructor; [|constructor]. apply chain_ok_nonnil. exact E.
   - destruct (chain_ok ks) eqn:E; constructor; [|constructor]. apply chain_ok_nonnil. exact E.
+  - destruct (chain_ok ks) eqn:E; constructor; [|constructor]. apply chain_ok_nonnil. exact E.
 Qed.
 
 Lemma history_ok ops m : Forall action_ok (history ops m).
@@ -357,8 +366,8 @@ Theorem reachable_wf ops : wf_dict (data (run_card ops empty_card)).
 Proof. rewrite run_history. apply wf_apply_actions; [apply history_ok | constructor]. Qed.
 
 (* ------------------------------------------------------------------ the history theorem *)
-Lemma upd_shal_shallow vis fold x : shallow (upd_fun vis fold x) = upd_shal vis fold (shallow x).
-Proof. destruct x, vis, fold; reflexivity. Qed.
+Lemma upd_shal_shallow vis fold ttl x : shallow (upd_fun vis fold ttl x) = upd_shal vis fold ttl (shallow x).
+Proof. destruct x, vis, fold, ttl; reflexivity. Qed.
 
 Lemma is_prefix_split q p : is_prefix q p = true -> path_eqb q p = false -> exists r, r <> [] /\ p = q ++ r.
 Proof.
